@@ -97,6 +97,7 @@ type Dialer struct {
 	mu       sync.Mutex
 	Attempts []time.Time
 	results  chan DialResult // scripted results; an attempt with none available parks (a stalled connect)
+	consumed int
 	opts     map[string]interface{}
 }
 
@@ -105,6 +106,9 @@ func (d *Dialer) Dial() (transport.Pipe, error) {
 	d.Attempts = append(d.Attempts, time.Now())
 	d.mu.Unlock()
 	r := <-d.results
+	d.mu.Lock()
+	d.consumed++
+	d.mu.Unlock()
 	if r.Err != nil {
 		return nil, r.Err
 	}
@@ -113,6 +117,9 @@ func (d *Dialer) Dial() (transport.Pipe, error) {
 
 func (d *Dialer) Script(r DialResult) { d.results <- r }
 func (d *Dialer) NAttempts() int      { d.mu.Lock(); defer d.mu.Unlock(); return len(d.Attempts) }
+
+// Parked: attempts that are inside the transport waiting for their scripted result
+func (d *Dialer) Parked() int { d.mu.Lock(); defer d.mu.Unlock(); return len(d.Attempts) - d.consumed }
 func (d *Dialer) Times() []time.Time {
 	d.mu.Lock()
 	defer d.mu.Unlock()
